@@ -36,16 +36,11 @@ theorem aligned_refl (a : DS R T W) : Aligned a a := Aligned.refl a
 theorem aligned_trans {a b c : DS R T W} (h₁ : Aligned a b) (h₂ : Aligned b c) : Aligned a c :=
   Aligned.trans h₁ h₂
 
-/-- what an `ndarray` matrix is: every record row has `p` cells, every target row `t`,
-and there is one target row per record row -/
-def Shaped (ds : DS R T W) : Prop :=
-  (∀ r ∈ ds.recs, r.length = ds.p) ∧ (∀ g ∈ ds.tgts, g.length = ds.t) ∧ ds.tgts.length = ds.recs.length
-
 /-- the two operations that work on the raw row-major buffers need the matrix shape
 (which ndarray guarantees): the owned split, and `into_single_target` on `[n, 1]` targets -/
 def RawOk (op : Op T) (ds : DS R T W) : Prop :=
   match op with
-  | .splitOwned _ => Shaped ds
+  | .splitOwned _ _ => Shaped ds
   | .intoSingleTarget => ∀ g ∈ ds.tgts, g.length = 1
   | _ => True
 
@@ -63,7 +58,7 @@ theorem apply_aligned [DecidableEq T] (ofBool : Bool → T) (op : Op T) (ds : DS
     | 0, hd => simp at hd; subst hd; exact ⟨_, _, _, _, ha⟩
     | 1, hd => simp at hd; subst hd; exact ⟨_, _, _, _, hb⟩
     | k + 2, hd => simp at hd
-  | splitOwned n1 =>
+  | splitOwned std n1 =>
     simp only [apply] at h
     split at h
     · simp at h
@@ -174,6 +169,124 @@ theorem aligned_ops [DecidableEq T] (ofBool : Bool → T) (ops : List (Op T × N
         simp [ha, hk] at h
         exact Aligned.trans (apply_aligned ofBool op ds hok.1 outs ha k d hk) (ih d ds' (hok.2 outs d ha hk) h)
 
+/-- **the dataset invariant** (`WF`: matrix shape, one weight per sample or none, one name per
+column or none — what the constructors of `DatasetBase` produce) **is preserved by every operation** -/
+theorem apply_wf [DecidableEq T] (ofBool : Bool → T) (op : Op T) (ds : DS R T W) (hw : WF ds)
+    (outs : List (DS R T W)) (h : apply ofBool op ds = some outs) : ∀ d ∈ outs, WF d := by
+  cases op with
+  | splitView n1 =>
+    simp only [apply, Option.map_eq_some_iff] at h
+    obtain ⟨⟨a, b⟩, hs, e⟩ := h
+    obtain ⟨ha, hb⟩ := splitView_wf hw hs
+    subst e
+    intro d hd
+    simp at hd
+    rcases hd with hd | hd <;> subst hd <;> assumption
+  | splitOwned std n1 =>
+    simp only [apply] at h
+    split at h
+    · simp at h
+    · simp only [Option.map_eq_some_iff] at h
+      obtain ⟨⟨a, b⟩, hs, e⟩ := h
+      obtain ⟨ha, hb⟩ := splitOwned_wf hw hs
+      subst e
+      intro d hd
+      simp at hd
+      rcases hd with hd | hd <;> subst hd <;> assumption
+  | shuffle idx =>
+    simp only [apply, Option.map_eq_some_iff] at h
+    obtain ⟨a, hs, e⟩ := h
+    subst e
+    intro d hd; simp at hd; subst hd; exact shuffle_wf hw hs
+  | bootstrap ns nf idx fidx =>
+    simp only [apply, Option.map_eq_some_iff] at h
+    obtain ⟨a, hs, e⟩ := h
+    subst e
+    intro d hd; simp at hd; subst hd; exact bootstrap_wf hw hs
+  | bootstrapSamples ns idx =>
+    simp only [apply, Option.map_eq_some_iff] at h
+    obtain ⟨a, hs, e⟩ := h
+    subst e
+    intro d hd; simp at hd; subst hd; exact bootstrapSamples_wf hw hs
+  | bootstrapFeatures nf fidx =>
+    simp only [apply, Option.map_eq_some_iff] at h
+    obtain ⟨a, hs, e⟩ := h
+    subst e
+    intro d hd; simp at hd; subst hd; exact bootstrapFeatures_wf hw hs
+  | withLabels labs =>
+    simp only [apply, Option.map_eq_some_iff] at h
+    obtain ⟨a, hs, e⟩ := h
+    subst e
+    intro d hd; simp at hd; subst hd; exact withLabels_wf hw hs
+  | oneVsAll =>
+    simp only [apply, Option.some.injEq] at h
+    subst h
+    intro d hd
+    simp only [List.mem_map] at hd
+    obtain ⟨⟨l, d0⟩, hk, e⟩ := hd
+    subst e
+    have := mapTargets_wf ofBool (oneVsAll_wf hw l d0 hk)
+    exact ⟨this.shaped, this.wts, this.fnm, this.tnm⟩
+  | mapTargets f =>
+    simp only [apply, Option.some.injEq] at h
+    subst h
+    intro d hd; simp at hd; subst hd; exact mapTargets_wf f hw
+  | view =>
+    simp only [apply, Option.some.injEq] at h
+    subst h
+    intro d hd; simp at hd; subst hd; exact view_wf hw
+  | toOwned =>
+    simp only [apply, Option.some.injEq] at h
+    subst h
+    intro d hd; simp at hd; subst hd; exact toOwned_wf hw
+  | intoSingleTarget =>
+    simp only [apply, Option.map_eq_some_iff] at h
+    obtain ⟨a, hs, e⟩ := h
+    subst e
+    intro d hd; simp at hd; subst hd; exact intoSingleTarget_wf hw hs
+  | featureIter => exact featureIter_wf hw h
+  | targetIter => exact targetIter_wf hw h
+  | sampleChunks size => exact sampleChunks_wf hw h
+
+/-- a well-formed dataset gives the raw-buffer operations what they need -/
+theorem rawOk_of_wf [DecidableEq T] (ofBool : Bool → T) (op : Op T) (ds : DS R T W) (hw : WF ds)
+    (outs : List (DS R T W)) (h : apply ofBool op ds = some outs) : RawOk op ds := by
+  cases op with
+  | splitOwned std n1 => exact hw.shaped
+  | intoSingleTarget =>
+    simp only [apply, Option.map_eq_some_iff] at h
+    obtain ⟨a, hs, _⟩ := h
+    exact singletons_of_wf hw hs
+  | _ => trivial
+
+/-- **all finite sequences of operations, no side condition**: started from any dataset the
+constructors can build (`WF`), whatever dataset a history ends in is again such a dataset, and each
+of its rows carries the record cells, targets and weight of one sample of the initial dataset, each
+of its columns the cells and name of one initial column.  (Induction over the history; the shape
+that `aligned_ops` asks for step by step is carried along as an invariant by `apply_wf`.) -/
+theorem aligned_history [DecidableEq T] (ofBool : Bool → T) (ops : List (Op T × Nat)) :
+    ∀ (ds ds' : DS R T W), WF ds → runSeq ofBool ops ds = some ds' → Aligned ds ds' ∧ WF ds' := by
+  induction ops with
+  | nil => intro ds ds' hw h; simp [runSeq] at h; subst h; exact ⟨Aligned.refl _, hw⟩
+  | cons s rest ih =>
+    obtain ⟨op, k⟩ := s
+    intro ds ds' hw h
+    simp only [runSeq] at h
+    cases ha : apply ofBool op ds with
+    | none => simp [ha] at h
+    | some outs =>
+      cases hk : outs[k]? with
+      | none => simp [ha, hk] at h
+      | some d =>
+        simp [ha, hk] at h
+        have hwd := apply_wf ofBool op ds hw outs ha d (List.mem_of_getElem? hk)
+        obtain ⟨hal, hw'⟩ := ih d ds' hwd h
+        exact ⟨Aligned.trans (apply_aligned ofBool op ds (rawOk_of_wf ofBool op ds hw outs ha) outs ha k d hk) hal, hw'⟩
+
+/-- the example dataset of the history below is well-formed -/
+example : WF (mkDS 2 1 true [[0, 1], [8, 9], [16, 17], [24, 25]] [[0], [1], [0], [2]] [1000, 1001, 1002, 1003] ["f0", "f1"] ["t0"]) :=
+  ⟨⟨by decide, by decide, by decide⟩, Or.inr (by decide), Or.inr (by decide), Or.inr (by decide)⟩
+
 /-- non-vacuity: a history of five operations on a weighted, named 4-sample dataset runs to the end -/
 example :
     let ds : DS Nat Nat Nat := mkDS 2 1 true [[0, 1], [8, 9], [16, 17], [24, 25]] [[0], [1], [0], [2]] [1000, 1001, 1002, 1003] ["f0", "f1"] ["t0"]
@@ -211,12 +324,14 @@ example : (splitView 2 (mkDS 1 1 true [[0], [8], [16]] [[5], [6], [7]] [1, 2, 3]
 /-- **ratio split of owned data** (raw buffers cut at `n1*p` resp. `n1*t`): on a rectangular
 dataset the parts have `n1` and `n - n1` samples and row `k` of the first part is sample `k`,
 row `k` of the second is sample `n1 + k` — records, targets and weights alike -/
-theorem split_owned_take_drop (n1 : Nat) (ds a b : DS R T W) (hs : Shaped ds)
-    (h : splitOwned n1 ds = some (a, b)) :
+theorem split_owned_take_drop (std : Bool) (n1 : Nat) (ds a b : DS R T W) (hs : Shaped ds)
+    (h : splitOwned std n1 ds = some (a, b)) :
     a.recs.length = n1 ∧ b.recs.length = ds.n - n1 ∧ a.tgts.length = n1 ∧ b.tgts.length = ds.n - n1 ∧
     AlignedBy id id id id ds a ∧ AlignedBy (fun k => n1 + k) id id id ds b := by
   have hal := splitOwned_alignedBy hs.1 hs.2.1 hs.2.2 h
   unfold splitOwned at h
+  split at h
+  · simp at h
   split at h
   · simp at h
   · simp only [Option.some.injEq, Prod.mk.injEq] at h
@@ -225,7 +340,7 @@ theorem split_owned_take_drop (n1 : Nat) (ds a b : DS R T W) (hs : Shaped ds)
     exact ⟨by simp [reshape], by simp [reshape], by simp [reshape], by simp [reshape], hal.1, hal.2⟩
 
 example :
-    let r := splitOwned 1 (mkDS 2 2 false [[0, 1], [8, 9], [16, 17]] [[5, 6], [7, 8], [9, 10]] [1, 2, 3] [] [])
+    let r := splitOwned true 1 (mkDS 2 2 false [[0, 1], [8, 9], [16, 17]] [[5, 6], [7, 8], [9, 10]] [1, 2, 3] [] [])
     r.map (fun ab => (ab.1.recs, ab.1.tgts, ab.1.weights)) = some ([[0, 1]], [[5, 6]], [1]) ∧
     r.map (fun ab => (ab.2.recs, ab.2.tgts, ab.2.weights)) = some ([[8, 9], [16, 17]], [[7, 8], [9, 10]], [2, 3]) := by
   decide
@@ -468,5 +583,111 @@ theorem counts_are_recounts [DecidableEq T] (idx : List Nat) (ds d : DS R T W) (
     cases hg : selRows idx ds.tgts with
     | none => simp [hr, hg] at h
     | some g => simp [hr, hg] at h; subst h; rfl
+
+/-! ## cached label counts, the label set, per-sample iteration, weights of masked frequencies,
+totality inside the guard -/
+
+/-- **a cached label count is never stale**: whatever dataset any of the operations returns, its
+cached counts (if it has any) are the counts of the targets it wraps — for every operation, not
+only `shuffle` (`counts_are_recounts`) -/
+theorem apply_counts_fresh [DecidableEq T] (ofBool : Bool → T) (op : Op T) (ds : DS R T W)
+    (outs : List (DS R T W)) (h : apply ofBool op ds = some outs) : ∀ d ∈ outs, CountsOk d :=
+  apply_counts_fresh_aux ofBool op ds outs h
+
+/-- along every history the cached counts stay fresh -/
+theorem history_counts_fresh [DecidableEq T] (ofBool : Bool → T) (ops : List (Op T × Nat)) :
+    ∀ (ds ds' : DS R T W), CountsOk ds → runSeq ofBool ops ds = some ds' → CountsOk ds' := by
+  induction ops with
+  | nil => intro ds ds' hc h; simp [runSeq] at h; subst h; exact hc
+  | cons s rest ih =>
+    obtain ⟨op, k⟩ := s
+    intro ds ds' _ h
+    simp only [runSeq] at h
+    cases ha : apply ofBool op ds with
+    | none => simp [ha] at h
+    | some outs =>
+      cases hk : outs[k]? with
+      | none => simp [ha, hk] at h
+      | some d =>
+        simp [ha, hk] at h
+        exact ih d ds' (apply_counts_fresh ofBool op ds outs ha d (List.mem_of_getElem? hk)) h
+
+/-- **the reported label counts are counts**: the keys of a column's label map are exactly the
+labels occurring in the column, each once, and the number stored with a label is the (positive)
+number of its occurrences -/
+theorem label_counts_count [DecidableEq T] (col : List T) :
+    ((countCol col).map (·.1)).Nodup ∧ (∀ y, y ∈ (countCol col).map (·.1) ↔ y ∈ col) ∧
+    ∀ y c, (y, c) ∈ countCol col → c = col.count y ∧ 0 < c :=
+  countCol_spec col
+
+example : countCol [5, 7, 5, 5, 9] = [(5, 3), (7, 1), (9, 1)] := by decide
+
+/-- **one view per distinct label**: on a dataset with fresh counts (plain targets, or cached counts
+that are counts — `apply_counts_fresh`) `one_vs_all` reports every label occurring in the
+targets, each exactly once, and no other (closes the gap left by `one_vs_all_labels`) -/
+theorem one_vs_all_distinct [DecidableEq T] (ds : DS R T W) (h2 : ∀ g ∈ ds.tgts, g.length = ds.t) (hc : CountsOk ds) :
+    ((oneVsAll ds).map (·.1)).Nodup ∧ ∀ l, l ∈ (oneVsAll ds).map (·.1) ↔ ∃ g ∈ ds.tgts, l ∈ g := by
+  rw [(one_vs_all_labels ds).1]
+  exact labelsOf_spec h2 hc
+
+example :
+    let ds := mkDS 1 1 true [[0], [8], [16], [24]] [[5], [6], [5], [2]] [] [] []
+    (∀ g ∈ ds.tgts, g.length = ds.t) ∧ CountsOk ds ∧ (oneVsAll ds).map (·.1) = [5, 6, 2] :=
+  ⟨by decide, fun c hc => by simp [mkDS] at hc, by decide⟩
+
+/-- **per-sample iteration** yields, for a dataset with one target row per record, exactly `n`
+pairs, the `k`-th being the record and the target row of sample `k` -/
+theorem sample_iter_pairs (ds : DS R T W) (h3 : ds.tgts.length = ds.recs.length) :
+    ∃ prs, sampleIter ds = some prs ∧ prs.length = ds.n ∧
+      ∀ (k : Nat) (r : List R) (g : List T), prs[k]? = some (r, g) → ds.recs[k]? = some r ∧ ds.tgts[k]? = some g := by
+  have ht := sampleIter_total h3
+  cases h : sampleIter ds with
+  | none => simp [h] at ht
+  | some prs => exact ⟨prs, rfl, sampleIter_pairs h⟩
+
+example : sampleIter (mkDS 2 1 true [[0, 1], [8, 9]] [[5], [6]] [] [] []) = some [([0, 1], [5]), ([8, 9], [6])] := by
+  decide
+
+/-- **`weight_for(i)`** is the weight stored at position `i`, the default where none is stored -/
+theorem weight_for_own (one : W) (ds : DS R T W) (i : Nat) :
+    (∀ w, ds.weights[i]? = some w → weightFor one ds i = w) ∧ (ds.weights[i]? = none → weightFor one ds i = one) := by
+  constructor
+  · intro w h; simp [weightFor, h]
+  · intro h; simp [weightFor, h]
+
+/-- **masked label frequencies use each kept sample's own weight**: `label_frequencies_with_mask(mask)`
+equals `label_frequencies()` of the dataset restricted to the positions passing the mask, targets and
+weights selected by the *same* positions (`g'`, `w'` are those selections; without weights every
+sample counts `one`) -/
+theorem label_freq_mask_is_filter [DecidableEq T] [Add W] (zero one : W) (mask : List Bool) (ds : DS R T W)
+    (g' : List (List T)) (w' : List W)
+    (hg : selRows ((List.range ds.tgts.length).filter fun i => mask.getD i true) ds.tgts = some g')
+    (hw : (ds.weights = [] ∧ w' = []) ∨
+      selRows ((List.range ds.tgts.length).filter fun i => mask.getD i true) ds.weights = some w') :
+    labelFreqsWithMask zero one mask ds = labelFreqsWithMask zero one [] { ds with tgts := g', weights := w' } := by
+  unfold labelFreqsWithMask
+  rw [maskedRows_restrict one mask ds g' w' hg hw]
+
+example :
+    let ds := mkDS 1 1 true [[0], [8], [16], [24]] [[5], [6], [5], [6]] [1000, 1001, 1002, 1003] [] []
+    selRows ((List.range ds.tgts.length).filter fun i => [true, false, true, true].getD i true) ds.tgts = some [[5], [5], [6]] ∧
+    selRows ((List.range ds.tgts.length).filter fun i => [true, false, true, true].getD i true) ds.weights = some [1000, 1002, 1003] ∧
+    labelFreqsWithMask 0 1 [true, false, true, true] ds = [(5, 2002), (6, 1003)] := by
+  decide
+
+/-- **inside the guard no operation panics**: on a dataset the constructors can build (`WF`), every
+operation whose guard holds (`Guard`: split point within the data, row-major layout and plain targets
+for the owned split, index vectors in range and a non-empty source for shuffle / bootstrap, `[n, 1]`
+targets for `into_single_target`, chunk size > 0; none for the others) returns a result -/
+theorem apply_total [DecidableEq T] (ofBool : Bool → T) (op : Op T) (ds : DS R T W) (hw : WF ds)
+    (hg : Guard op ds) : (apply ofBool op ds).isSome :=
+  apply_total_aux ofBool op ds hw hg
+
+example :
+    let ds := mkDS 2 1 true [[0, 1], [8, 9], [16, 17]] [[0], [1], [0]] [1000, 1001, 1002] ["f0", "f1"] ["t0"]
+    WF ds ∧ Guard (.bootstrap 2 1 [2, 0] [1]) ds ∧ Guard (.splitOwned true 2) ds ∧ Guard (.sampleChunks 2) ds :=
+  ⟨⟨⟨by decide, by decide, by decide⟩, Or.inr (by decide), Or.inr (by decide), Or.inr (by decide)⟩,
+   ⟨Or.inr (by decide), Or.inr (by decide), by simp [InRange, mkDS, DS.n], by simp [InRange, mkDS]⟩, ⟨rfl, rfl, by decide⟩,
+   by simp [Guard]⟩
 
 end LinfaSpec.Props.C02
